@@ -88,6 +88,15 @@ def make_calls(root):
             return fn()
         return run
     calls["record/base_setting"] = with_setting(lambda: rl.record_artifacts_as_dict(["."]))
+
+    def with_patterns(fn):
+        def run():
+            st.ARTIFACT_EXCLUDE_PATTERNS = ["*.link*", ".git", "*~", "#*#", "!scratch", "\\#keep"]
+            return fn()
+        return run
+    calls["record/exclude_setting_special"] = with_patterns(lambda: rl.record_artifacts_as_dict(["."], base_path=base))
+    calls["run/exclude_setting_special"] = with_patterns(lambda: rl.in_toto_run("st7", ["."], ["."], [sys.executable, "-c", "pass"],
+                                                                                 base_path=base, signer=k.signer))
     # (thorough tier) more combinations of entry point x base path x failure
     calls["record/ostree_ok"] = lambda: rl.record_artifacts_as_dict(["ostree:main"], base_path=os.path.join(root, "ostree"))
     calls["match_products/base_setting_collision"] = with_setting(lambda: rl.in_toto_match_products(
@@ -195,6 +204,8 @@ def run_once(name, root, fault_at=None):
         # shapes that set a setting do so inside the call wrapper: take the snapshot after a dry assignment
         if name.split("/")[-1].startswith("base_setting"):
             st.ARTIFACT_BASE_PATH = os.path.join(root, "base")
+        if name.endswith("exclude_setting_special"):
+            st.ARTIFACT_EXCLUDE_PATTERNS = ["*.link*", ".git", "*~", "#*#", "!scratch", "\\#keep"]
         before = None
         with contextlib.redirect_stdout(io.StringIO()), contextlib.redirect_stderr(io.StringIO()):
             if name.startswith("verify/"):
@@ -384,7 +395,8 @@ def run_shape(name):
 SHAPES_QUICK = ["record/base_arg", "record/base_arg_two_paths", "record/no_base", "record/collision", "record/missing_base",
                 "record/ostree_missing_ref", "record/dir", "record/base_setting", "run/streams", "run/no_streams",
                 "run/failing_command", "run/no_such_command", "run/unwritable_metadata_dir", "record_start",
-                "record_start_stop", "record_stop/no_preliminary", "match_products"] + list(VERIFY_SHAPES)
+                "record_start_stop", "record_stop/no_preliminary", "match_products", "record/exclude_setting_special",
+                "run/exclude_setting_special"] + list(VERIFY_SHAPES)
 
 
 SHAPES_THOROUGH = SHAPES_QUICK + ["record/ostree_ok", "match_products/base_setting_collision", "match_products/base_setting",
